@@ -2,6 +2,7 @@ package sim
 
 import (
 	"fmt"
+	"github.com/cespare/xxhash/v2"
 	"math/rand/v2"
 	"sort"
 	"strings"
@@ -200,9 +201,68 @@ func genJanitorRace(r *rand.Rand) *Scenario {
 	return sc
 }
 
+// genHotShard: one shard of a sharded map holds 70-100 entries, most of them expired long enough to be purged
+// by the next cleanup cycle (size thresholds of per-shard maintenance are reached); a Walk whose first callback
+// is slow lets a cycle and other clients' deletes and overwrites happen in the middle of its pass over that
+// shard, then goes on.
+func genHotShard(r *rand.Rand) *Scenario {
+	sc := genBEBase(r, "conc")
+	be := sc.BE
+	be.Backend = pick(r, "sharded", "shardedOf")
+	be.ValRep = ""
+	be.KeepRoot = true
+	sc.NoFastPath = chance(r, 0.3)
+	sc.TickNs = 1000
+	be.Cfg = BEConfig{TTLNs: 3600 * sec, Jitter: -1, Strategy: r.IntN(3), JanitorIntervalNs: ms, DeleteExpiredAfterNs: ms}
+
+	shard := uint64(r.IntN(128))
+	n := 70 + r.IntN(31)
+	fresh := 4 + r.IntN(8)
+
+	for i := 0; len(be.Keys) < n; i++ {
+		k := []byte(fmt.Sprintf("hot-%d-%d", shard, i))
+		if xxhash.Sum64(k)%128 != shard {
+			continue
+		}
+
+		be.Keys = append(be.Keys, k)
+		be.Groups = append(be.Groups, -1)
+
+		op := BEOp{Kind: "write", Key: len(be.Keys) - 1}
+		if len(be.Keys) > fresh {
+			op.HasTTL, op.TTLNs = true, -3600*sec
+		}
+
+		be.Root = append(be.Root, op)
+	}
+
+	// the walker: its first callback takes 3-6 ms (3-6 cleanup cycles)
+	be.Clients = append(be.Clients, []BEOp{{Kind: "walk", SleepNs: pick(r, 3*ms, 6*ms)}})
+
+	// other clients delete and overwrite fresh keys while the walker is parked in its callback
+	nc := 1 + r.IntN(2)
+	for c := 0; c < nc; c++ {
+		ops := []BEOp{{Kind: "sleep", SleepNs: pick(r, ms+ms/2, 2*ms)}}
+
+		for i := 0; i < 2+r.IntN(4); i++ {
+			ops = append(ops, BEOp{Kind: pick(r, "delete", "delete", "write"), Key: r.IntN(fresh)})
+		}
+
+		be.Clients = append(be.Clients, ops)
+	}
+
+	sc.Sched = genSched(r, 400)
+
+	return sc
+}
+
 func genC08(r *rand.Rand, run int, _ string) *Scenario {
 	if run%8 == 7 {
 		return genJanitorRace(r)
+	}
+
+	if run%40 == 13 {
+		return genHotShard(r)
 	}
 
 	sc := genBEBase(r, "conc")
@@ -585,6 +645,62 @@ func (r *beRun) walkRule(cycles []cycleRec) {
 			if !okv {
 				out.violate("C08.R2", r.sc.Backend+" walk-unwritten-entry", "%s Walk visited (%q, %v) which no Write invoked before the visit had stored", w.id(), v.key, v.val)
 			}
+		}
+
+		// A visit reports what the cache held at some instant of the walk: for the sharded maps between the
+		// previous callback and this one (the entry is copied when the iteration reaches it), for sync.Map at any
+		// point of the Range. A value that a completed Delete / DeleteAll / overwrite had already replaced
+		// before that window began is stale: the walk is not looking at the live cache.
+		prevSeq := w.inv
+
+		for _, v := range w.walk {
+			from := prevSeq
+			if r.sc.Backend == "syncmap" {
+				from = w.inv
+			}
+
+			prevSeq = v.seq
+
+			t, isTok := v.val.(Tok)
+			if !isTok {
+				continue
+			}
+
+			var stored *beRec
+
+			for _, o := range r.recs {
+				if (o.kind == "write" || o.kind == "store") && o.done && o.key == v.key && o.tok == t {
+					stored = o
+				}
+			}
+
+			if stored == nil {
+				continue
+			}
+
+			for _, o := range r.recs {
+				if !o.done || o.inv < stored.ret || o.ret >= from {
+					continue
+				}
+
+				kills := (o.kind == "delete" && o.key == v.key && o.err == nil) || o.kind == "deleteAll" ||
+					((o.kind == "write" || o.kind == "store") && o.key == v.key && o.err == nil && o.tok != t)
+
+				for _, d := range o.walkDel {
+					if d.key == v.key && d.err == nil {
+						kills = true
+					}
+				}
+
+				if kills {
+					out.violate("C08.R2", r.sc.Backend+" walk-stale-entry", "%s Walk visited (%q, %v) at seq %d although %s %s had replaced or removed that value and returned at seq %d, before the part of the walk that reached the entry began (seq %d): the walk is not iterating the live cache",
+						w.id(), v.key, v.val, v.seq, o.id(), o.kind, o.ret, from)
+
+					break
+				}
+			}
+
+			out.probe("walk_visit_freshness_checked")
 		}
 
 		for _, kb := range r.sc.Keys {
